@@ -145,8 +145,23 @@ fn run_lines(ctx: &Ctx, header: &str, lines: &[Line], footer: &str, curve: &str,
 
 const HEADER: &str = "pragma circom 2.0.0;\nfunction zf(x) {\n    return x + 250;\n}\ntemplate Top(n) {\n    signal input a;\n    signal input b;\n";
 
+/// The ways an instantiation can be written: declaration with initialiser, declaration then
+/// assignment, element of a component array, element assigned in a loop.
+fn inst(form: usize, var: &str, call: &str) -> String {
+    match form % 4 {
+        0 => format!("    component {var} = {call};"),
+        1 => format!("    component {var};\n    {var} = {call};"),
+        2 => format!("    component {var}[2];\n    {var}[1] = {call};"),
+        _ => format!("    component {var}[2];\n    for (var j{var} = 0; j{var} < 2; j{var}++) {{\n        {var}[j{var}] = {call};\n    }}"),
+    }
+}
+
 fn name_line(i: usize, name: &str, curve: &str) -> Line {
-    Line { text: format!("    component c{i} = {name}(2);"), expect: vec![("CS0016", Some(marked(name, curve)))] }
+    name_line_as(i, name, curve, 0)
+}
+
+fn name_line_as(i: usize, name: &str, curve: &str, form: usize) -> Line {
+    Line { text: inst(form, &format!("c{i}"), &format!("{name}(2)")), expect: vec![("CS0016", Some(marked(name, curve)))] }
 }
 
 #[derive(Clone, Copy)]
@@ -160,19 +175,24 @@ enum SizeForm {
 }
 
 fn size_line(i: usize, template: &str, n: u64, form: SizeForm, curve: &str) -> Line {
+    size_line_as(i, template, n, form, curve, 0)
+}
+
+fn size_line_as(i: usize, template: &str, n: u64, form: SizeForm, curve: &str, inst_form: usize) -> Line {
+    let v = format!("s{i}");
     let (text, constant, value) = match form {
-        SizeForm::Literal => (format!("    component s{i} = {template}({n});"), true, Some(n)),
+        SizeForm::Literal => (inst(inst_form, &v, &format!("{template}({n})")), true, Some(n)),
         SizeForm::Arithmetic => {
             let a = n / 2;
-            (format!("    component s{i} = {template}({a} + {});", n - a), true, Some(n))
+            (inst(inst_form, &v, &format!("{template}({a} + {})", n - a)), true, Some(n))
         }
         SizeForm::ShiftExpr => {
             // (n << 1) >> 1
-            (format!("    component s{i} = {template}(({n} << 1) >> 1);"), true, Some(n))
+            (inst(inst_form, &v, &format!("{template}(({n} << 1) >> 1)")), true, Some(n))
         }
-        SizeForm::Variable => (format!("    var zv{i} = {n};\n    component s{i} = {template}(zv{i});"), true, Some(n)),
-        SizeForm::Parameter => (format!("    component s{i} = {template}(n);"), false, None),
-        SizeForm::FunctionCall => (format!("    component s{i} = {template}(zf({n}));"), false, Some(n + 250)),
+        SizeForm::Variable => (format!("    var zv{i} = {n};\n{}", inst(inst_form, &v, &format!("{template}(zv{i})"))), true, Some(n)),
+        SizeForm::Parameter => (inst(inst_form, &v, &format!("{template}(n)")), false, None),
+        SizeForm::FunctionCall => (inst(inst_form, &v, &format!("{template}(zf({n}))")), false, Some(n + 250)),
     };
     let expect = if curve == "BN254" {
         match (constant, value) {
@@ -239,6 +259,9 @@ fn exhaustive(ctx: &Ctx, stats: &Stats) -> Vec<Failure> {
             "table" => {
                 for (i, (name, _, _)) in TABLE.iter().enumerate() {
                     lines.push(name_line(i, name, job.curve));
+                    for f in 1..4 {
+                        lines.push(name_line_as(1000 * f + i, name, job.curve, f));
+                    }
                 }
                 for (i, name) in NEAR_MISSES.iter().enumerate() {
                     lines.push(name_line(100 + i, name, job.curve));
@@ -266,6 +289,12 @@ fn exhaustive(ctx: &Ctx, stats: &Stats) -> Vec<Failure> {
                         continue;
                     }
                     lines.push(size_line(n as usize, template, n, form, job.curve));
+                    // the other ways of writing the instantiation: all of them around the boundary, one elsewhere
+                    for f in 1..4usize {
+                        if (250..=258).contains(&n) || n as usize % 3 + 1 == f {
+                            lines.push(size_line_as(10_000 * f + n as usize, template, n, form, job.curve, f));
+                        }
+                    }
                 }
                 lines.push(size_line(2000, template, 0, SizeForm::Parameter, job.curve));
             }
@@ -365,7 +394,7 @@ fn random_case(ctx: &Ctx, tape: &[u8], rec: &Rec) -> Verdict {
         let l = match t.below(6) {
             0 | 1 => {
                 let name = if t.chance(150) { TABLE[t.below(TABLE.len())].0 } else { NEAR_MISSES[t.below(NEAR_MISSES.len())] };
-                name_line(i, name, curve)
+                name_line_as(i, name, curve, t.below(4))
             }
             2 | 3 => {
                 let size = match t.below(4) {
@@ -375,7 +404,7 @@ fn random_case(ctx: &Ctx, tape: &[u8], rec: &Rec) -> Verdict {
                     _ => t.below(64) as u64,
                 };
                 let form = [SizeForm::Literal, SizeForm::Arithmetic, SizeForm::ShiftExpr, SizeForm::Variable, SizeForm::Parameter, SizeForm::FunctionCall][t.below(6)];
-                size_line(i, if t.chance(128) { "Num2Bits" } else { "Bits2Num" }, size, form, curve)
+                size_line_as(i, if t.chance(128) { "Num2Bits" } else { "Bits2Num" }, size, form, curve, t.below(4))
             }
             _ => {
                 let k = match t.below(4) {
